@@ -560,4 +560,12 @@ func init() {
 		Old:    "\tif err := preliminaryFunctionDefinitionsChecks(globalEnv); err != nil {\n\t\terrorChan <- err\n\t\treturn\n\t}",
 		New:    "\tif err := preliminaryFunctionDefinitionsChecks(globalEnv); err != nil {\n\t\tvar errs []error\n\t\terrs = append(errs, err)\n\t\terrorChan <- errs[0]\n\t\treturn\n\t}",
 		Expect: "aggregate-error"})
+	addFixture(Fixture{Name: "bind-helper-skips-self", Rule: "R-BIND-HELPER", File: "process/typechecker.go",
+		Old:    "func nameTypeExists(namesTypesCtx NamesTypesCtx, key string) bool {",
+		New:    "func bindNameFixture(ctx NamesTypesCtx, name Name, t types.SessionType) {\n\tif name.IsSelf {\n\t\treturn\n\t}\n\tctx[name.Ident] = NamesType{Type: t}\n}\n\nfunc nameTypeExists(namesTypesCtx NamesTypesCtx, key string) bool {",
+		Expect: "process.bindNameFixture | always-binds"})
+	addFixture(Fixture{Name: "new-process-run-inline", Rule: "R-FAMILY-CONSISTENT", File: "process/transition.go",
+		Old:    "\t\t// Spawn and initiate new process\n\t\tnewProcess.SpawnThenTransition(re)",
+		New:    "\t\t// Spawn and initiate new process\n\t\tnewProcess.transitionLoop(re)",
+		Expect: "loop-continues-own-process"})
 }
